@@ -432,3 +432,89 @@ Qed.
 
 Lemma nonneg_waits_wfr r : nonneg_waits r = wfr r.
 Proof. reflexivity. Qed.
+
+(* ================================================================ time-signature messages *)
+(* the TIME_SIGNATURE events of a list of timed events *)
+Definition tsig (E : list event) : list event := filter (fun e => is_ts (snd e)) E.
+Definition ats (a : list msg) : list event := tsig (ev_abs a).
+Definition elt (a b : event) : Prop := fst a < fst b.
+
+Lemma ts_not_internal m : is_ts m = true -> is_internal m = false.
+Proof. unfold is_ts, is_internal, mtype_eqb. destruct (m_type m); cbn; congruence. Qed.
+Lemma ts_not_wait m : is_ts m = true -> is_wait m = false.
+Proof. unfold is_ts, is_wait, mtype_eqb. destruct (m_type m); cbn; congruence. Qed.
+Lemma ts_not_note m : is_ts m = true -> is_note m = false.
+Proof. unfold is_ts, is_note, is_on, is_off, mtype_eqb. destruct (m_type m); cbn; congruence. Qed.
+
+Lemma tsig_app a b : tsig (a ++ b) = tsig a ++ tsig b.
+Proof. apply filter_app. Qed.
+
+Lemma ats_filter a : ats a = map (fun m => (m_time m, strip_time m)) (filter is_ts a).
+Proof.
+  unfold ats, tsig, ev_abs. rewrite filter_map_comm, filter_filter. cbn [snd]. f_equal.
+  apply filter_ext_in'. intros m _. change (is_ts (strip_time m)) with (is_ts m).
+  destruct (is_ts m) eqn:E; [|apply andb_false_r]. now rewrite (ts_not_internal m E).
+Qed.
+
+Lemma ats_app a b : ats (a ++ b) = ats a ++ ats b.
+Proof. unfold ats. now rewrite ev_abs_app, tsig_app. Qed.
+
+Lemma key_le_lt x y : m_time x < m_time y -> key_le x y = true.
+Proof. intros H. unfold key_le. apply Z.ltb_lt in H. now rewrite H. Qed.
+
+Lemma ats_sort_abs l : ForallOrdPairs elt (ats l) -> ats (sort_abs l) = ats l.
+Proof.
+  intros H. rewrite !ats_filter. rewrite filter_sort_abs; [reflexivity|].
+  rewrite ats_filter in H. revert H. apply FOP_map_inv. intros x y _ _ Hxy. unfold elt in Hxy. cbn [fst] in Hxy.
+  now apply key_le_lt.
+Qed.
+
+Lemma ats_insort_internal c t l : ats (insort (mk_internal c t) l) = ats l.
+Proof. rewrite !ats_filter. now rewrite filter_insort_other. Qed.
+
+Lemma ats_to_abs l : ForallOrdPairs elt (tsig (ev_rel l)) -> ats (to_abs l) = tsig (ev_rel l).
+Proof.
+  intros H. rewrite to_abs_unfold. cbv zeta. unfold ev_rel in *.
+  rewrite <- (to_abs_aux_events l 0 false true) in *.
+  set (x := to_abs_aux l 0 false true) in *. fold (ats (ta_msgs x)) in *.
+  destruct (ta_cap x); [|rewrite ats_insort_internal]; now apply ats_sort_abs.
+Qed.
+
+(* `ts_ok` (C07: no repeated signature) is a function of the TIME_SIGNATURE events *)
+Lemma ts_ok_tsig r : forall cur prev, ts_ok prev r = ts_ok prev (map snd (tsig (ev_rel_from cur r))).
+Proof.
+  induction r as [|m r IH]; intros cur prev; [reflexivity|]. cbn [ts_ok ev_rel_from].
+  destruct (is_wait m) eqn:Ew.
+  - assert (is_ts m = false) as -> by (destruct (is_ts m) eqn:E; [apply ts_not_wait in E; congruence|reflexivity]).
+    apply IH.
+  - destruct (is_internal m) eqn:Ei.
+    + assert (is_ts m = false) as -> by (destruct (is_ts m) eqn:E; [apply ts_not_internal in E; congruence|reflexivity]).
+      apply IH.
+    + unfold tsig. cbn [filter snd]. change (is_ts (strip_time m)) with (is_ts m).
+      destruct (is_ts m) eqn:Et; [|apply IH]. cbn [map snd ts_ok]. change (is_ts (strip_time m)) with (is_ts m).
+      rewrite Et. change (m_num (strip_time m)) with (m_num m). change (m_den (strip_time m)) with (m_den m).
+      f_equal. apply IH.
+Qed.
+
+(* the (tick, numerator, denominator) view *)
+Definition tsv (E : list event) : list (Z * Z * Z) := map (fun e => (fst e, m_num (snd e), m_den (snd e))) (tsig E).
+
+Lemma tsv_set_channel r i : forall cur, tsv (ev_rel_from cur (set_channel r i)) = tsv (ev_rel_from cur r).
+Proof.
+  induction r as [|m r IH]; intros cur; [reflexivity|]. cbn [set_channel map ev_rel_from]. fold (set_channel r i).
+  change (is_wait (set_chan m i)) with (is_wait m). change (is_internal (set_chan m i)) with (is_internal m).
+  change (m_time (set_chan m i)) with (m_time m).
+  destruct (is_wait m); [apply IH|]. destruct (is_internal m); [apply IH|].
+  unfold tsv, tsig in *. cbn [filter snd]. change (is_ts (strip_time (set_chan m i))) with (is_ts m).
+  change (is_ts (strip_time m)) with (is_ts m). destruct (is_ts m); [|apply IH]. cbn [map fst snd]. f_equal. apply IH.
+Qed.
+
+Lemma ts_ok_set_channel r i : forall prev, ts_ok prev (set_channel r i) = ts_ok prev r.
+Proof.
+  induction r as [|m r IH]; intros prev; [reflexivity|]. cbn [set_channel map ts_ok]. fold (set_channel r i).
+  change (is_ts (set_chan m i)) with (is_ts m). change (m_num (set_chan m i)) with (m_num m).
+  change (m_den (set_chan m i)) with (m_den m). destruct (is_ts m); now rewrite IH.
+Qed.
+
+Lemma FOP_elt_tsv E : ForallOrdPairs (fun a b => fst (fst a) < fst (fst b)) (tsv E) -> ForallOrdPairs elt (tsig E).
+Proof. unfold tsv. apply FOP_map_inv. intros x y _ _ H. exact H. Qed.
